@@ -19,6 +19,9 @@ CLAIMS = {
  "C04": ("model_checking",
    "Parse (generic Parser[int] without/with comments+comfort+keywords) and value.New().Generate are executed on N symbolic bytes ranging over all 256 values each (N<=2 quick, <=3 thorough; unicode classes as range-set formulas), on valid programs with one (thorough: two) symbolic byte overwritten/inserted at every position, on every truncation, and on concrete deep-nesting/unterminated inputs: every path ends with AST xor error, no panic escapes, every path stays within the step budget (termination).",
    "inputs longer than the bound, stack exhaustion by deep nesting and the 64 KiB end of the quantifier are outside the claim; 'linear-ish time' is checked only as a step budget of 3M SSA instructions on these short inputs"),
+ "C08": ("model_checking",
+   "35 pipelines source -> lazy stages -> short-circuit consumer (first, top(k), present, indexWhere, ~, single, skip+first, accept, combine/combine3/combineN, number, +, iir, compact, multiUse of those, merge; sources numbers(n), literal lists, evaluated/ordered/reversed lists) with a counting host function inside the stage closures: the source length n is SYMBOLIC and only assumed > 40 (so 10^11 is one of its values), the decisive position k symbolic in 0..6, the position f of a failing element symbolic in 0..12. Per path: the number of closure calls at return and again at quiescence (after all goroutines have been run, runaway ones preemptively) is at most the documented demand (first 1, top(k) k+1, present/indexWhere/~ k+2, single 3, combine 3, ..., unconsumed pipelines 0); an error of an element behind the demanded prefix does not surface; every path finishes within 4M SSA steps although n is unbounded.",
+   "read-ahead in forced-parallel mode is outside (sequential clock); bounds are the ones observed on the pinned tree plus the read-ahead of one the property grants; known finding: merge producers of the iterator dependency"),
  "C09": ("model_checking",
    "Histories of 2 (thorough 3) operations over a pool of live handles: every operation (append, append twice, set, reverse, + on either side, top, skip, map, order, first as partial consumption, eval; for maps put, put twice, replace, +, eval, map, accept) is a one-operation generated function applied to a chosen existing handle; a purely functional model of symbolic values says what each handle must contain; after the history (and in a second mode after every step) every handle is observed through the public API (ToSlice, Size, Get, Iter): size, elements/keys and values must equal the model for EVERY element value (symbolic 64-bit ints). Enumerated by sym.Choice: operations, parent of each step, representation of the host-supplied parent (literal with 0..3 spare capacity in its backing array, lazily produced, produced by append), observation mode. Plus 9 programs binding lists/maps to names (constant-folded, lazily produced, ordered) whose three evaluations are compared with the reference evaluator.",
    "list length 2 at creation, history length bound, key pool of 4; spec-level capacities beyond the real runtime's growth policy are not explored (the engine uses the runtime's own append growth for 16-byte elements)"),
